@@ -28,7 +28,9 @@ RULE = ("Base messages are produced in simulation by fixed scenarios: v1/v2c res
         "header position (tags and length octets, nested security parameters included, located by the independent decoder) "
         "every one of the 256 octet values (thorough; a 13-value dictionary {00 01 7F 80 81 82 83 84 88 FF 04 30 A2} in "
         "quick), seeded pairs and triples of header positions with dictionary values, indefinite lengths with end-of-contents, "
-        "seeded random strings of 0-2000 octets and some of 65507, constructed values nested up to the UDP maximum. 'After "
+        "seeded random strings of 0-2000 octets and some of 65507, constructed values nested up to the UDP maximum, and "
+        "WELL-FORMED but unusually large variants of the message (up to 6 500 tiny bindings, one 60 000-octet string, error "
+        "responses with thousands of bindings). 'After "
         "authentication' = the agent applies the mutation to the scoped PDU before encrypting and signing. Oracle: while the "
         "client processes the exchange every Python function entry, call and loop jump outside the harness is counted "
         "(sys.monitoring) and must stay below A + 200 x len(datagram) events (A = 400k for single exchanges, 1.2M for walks, "
@@ -45,7 +47,7 @@ ASSUMPTIONS = [
 ]
 PROBES = ["flip", "trunc", "hsub", "hsub_multi", "eoc", "random", "random_max_size", "nest", "post_auth", "discovery_reply",
           "report", "trap", "raised", "accepted_mutated", "recursion_error", "indefinite_no_eoc_reached", "timeout_path",
-          "memory_measured"]
+          "memory_measured", "big_wellformed", "big_over_50k_octets"]
 shrink_lists = [("mutations",)]
 DICT = [0x00, 0x01, 0x7F, 0x80, 0x81, 0x82, 0x83, 0x84, 0x88, 0xFF, 0x04, 0x30, 0xA2]
 
@@ -126,6 +128,36 @@ def nested(style: int, depth: int) -> bytes:
     return B.enc_seq([B.enc_int(1), B.enc_str(b"public"), pdu])
 
 
+def big_message(raw: bytes, style: int, n: int) -> bytes:
+    """A WELL-FORMED but unusually large variant of the authentic message/scoped PDU: same header, request id and
+    context, the binding list replaced.  style 0: n tiny bindings (OID of 2 octets, NULL); 1: one OCTET STRING of n octets;
+    2: n bindings with 9-arc OIDs and integers; 3: error-status 5 with n tiny bindings."""
+    def bindings() -> list:
+        if style == 1:
+            return [((1, 3, 6, 1, 2, 1, 1, 1, 0), ("str", b"x" * n))]
+        if style == 2:
+            return [((1, 3, 6, 1, 2, 1, 2, 2, 1, 1 + (j >> 7), j & 127), ("int", j)) for j in range(n)]
+        return [((1, 3, 1 + (j >> 14) % 100, (j >> 7) & 127, j & 127), ("null", None)) for j in range(n)]
+
+    def pdu_like(pdu: dict) -> dict:
+        return S.mkpdu(pdu["tag"], pdu["rid"], bindings(), es=5 if style == 3 else 0, ei=1 if style == 3 else 0)
+    try:
+        msg = S.decode_message(raw)
+    except B.BerError:
+        try:
+            sc = S.decode_scoped_bytes(raw)      # "post": the agent's plaintext scoped PDU
+        except B.BerError:
+            return raw
+        return S.enc_scoped(sc["ctx_engine"], sc["ctx_name"], S.enc_pdu(pdu_like(sc["pdu"])))
+    if msg["version"] in (0, 1):
+        return S.enc_community_msg(msg["version"], msg["community"], S.enc_pdu(pdu_like(msg["pdu"])))
+    if msg["scoped"] is None:
+        return raw                               # encrypted on the wire: big payloads go through the "post" scenarios
+    sc = msg["scoped"]
+    scoped = S.enc_scoped(sc["ctx_engine"], sc["ctx_name"], S.enc_pdu(pdu_like(sc["pdu"])))
+    return S.enc_v3_msg(msg["msg_id"], msg["max_size"], msg["flags"], 3, S.enc_usm_params(msg["sec"]), scoped)
+
+
 def apply_mutation(raw: bytes, m: list) -> bytes:
     kind = m[0]
     if kind == "none":
@@ -157,6 +189,8 @@ def apply_mutation(raw: bytes, m: list) -> bytes:
         return bytes((keyed(m[1], "r", j) & 0xFF) for j in range(n))
     if kind == "nest":
         return nested(m[1], m[2])
+    if kind == "big":
+        return big_message(raw, m[1], m[2])
     raise ValueError(kind)
 
 
@@ -262,6 +296,8 @@ class Env:
         agent.hook_scoped = hook_scoped
         hits0 = self.indef_hits
         est_len = len(apply_mutation(b"\x00" * 200, m)) if m[0] in ("raw", "rand", "nest") else 300
+        if m[0] == "big":
+            est_len = 200 + (m[2] if m[1] == 1 else 8 * m[2])
         budget = A_EVENTS[self.op["op"]] + B_EVENTS * est_len
         status, val, events, peak = self.metered(scen.do_op(client, self.op), budget)
         w.net.rewriter = None
@@ -349,6 +385,8 @@ def _segments(tier: str) -> List[Tuple[str, str, int]]:
         segs.append((name, "multi", 300 if tier == "quick" else 6000))
         segs.append((name, "rand", 150 if tier == "quick" else 3000))
         segs.append((name, "nest", 8 if tier == "quick" else 24))
+        if "disco" not in name and "report" not in name:
+            segs.append((name, "big", 6 if tier == "quick" else 24))
     return segs
 
 
@@ -404,6 +442,10 @@ def plan_for(tier: str, seed: int, i: int) -> dict:
             rng = rng_for(seed, ID, tier + ":" + name + ":rand", j)
             n = 65507 if j % 50 == 49 else rng.choice([0, 1, 2, 3, 5, 8, 16, 40, 100, 300, 1000, 2000, rng.randrange(0, 2001)])
             muts.append(["rand", rng.getrandbits(40), n])
+        elif fam == "big":
+            style = j % 4
+            sizes = [2000, 8000, 500, 60000] if style == 1 else [300, 2500, 1000, 6500, 4000, 50]
+            muts.append(["big", style, sizes[(j // 4) % len(sizes)]])
         else:
             depths = [1, 10, 100, 1000, 5000, 10900, 20000, 32750]
             style = j % 4
@@ -472,6 +514,8 @@ def execute(plan: dict) -> dict:
             probes["hsub"] |= int(fam == "hsub" and len(m) == 3); probes["hsub_multi"] |= int(fam == "hsub" and len(m) > 3)
             probes["eoc"] |= int(fam == "eoc"); probes["random"] |= int(fam == "rand")
             probes["random_max_size"] |= int(fam == "rand" and m[2] == 65507); probes["nest"] |= int(fam == "nest")
+            probes["big_wellformed"] |= int(fam == "big" and reached)
+            probes["big_over_50k_octets"] |= int(fam == "big" and reached and len(mutated) > 50000)
             probes["post_auth"] |= int(env.where == "post" and reached)
             probes["discovery_reply"] |= int("disco" in name and reached); probes["report"] |= int("report" in name and reached)
             probes["trap"] |= int(env.special == "trap")
